@@ -372,4 +372,4 @@ func isAEAD(c string) bool {
 }
 
 // findingCBCEtM is the id of the known-finding entry for "CBC packet cipher ignores EtM MACs".
-const findingCBCEtM = "F9"
+const findingCBCEtM = "F81"
